@@ -472,6 +472,11 @@ type RefreshCase struct {
 	// multiple of GridMS (a cron-like schedule).  The worker must consult it
 	// with the time AFTER the refresh.
 	GridMS int `json:"grid_ms,omitempty"`
+	// ShutdownCtx: the context given to Shutdown: 0 a value context, 1 one
+	// with a (distant) deadline, as SignalHandler gives its services, 2 a
+	// cancellable one that is not cancelled.  The final refresh still gets a
+	// context from the constructor.
+	ShutdownCtx int `json:"shutdown_ctx,omitempty"`
 }
 
 type ctxKey string
@@ -638,7 +643,18 @@ func checkRefresh(c RefreshCase) error {
 		mu.Lock()
 		shuttingDown = true
 		mu.Unlock()
-		serr := w.Shutdown(context.WithValue(context.Background(), ctxKey("parent"), "shutdown"))
+		sctx := context.WithValue(context.Background(), ctxKey("parent"), "shutdown")
+		switch c.ShutdownCtx {
+		case 1:
+			var cancel context.CancelFunc
+			sctx, cancel = context.WithTimeout(sctx, 24*time.Hour)
+			defer cancel()
+		case 2:
+			var cancel context.CancelFunc
+			sctx, cancel = context.WithCancel(sctx)
+			defer cancel()
+		}
+		serr := w.Shutdown(sctx)
 		time.Sleep(10*longest + 10*time.Second)
 		synctest.Wait()
 
@@ -802,6 +818,7 @@ var refreshProp = vp.Register(vp.Prop[RefreshCase]{
 			CancelStartMS: rapid.SampledFrom([]int{0, 0, 1, 10, 40, 100}).Draw(t, "cancelstart"),
 			GridMS:        rapid.SampledFrom([]int{0, 0, 0, 7, 20, 60}).Draw(t, "grid"),
 			OnShutdown:    rapid.Bool().Draw(t, "onshutdown"),
+			ShutdownCtx:   rapid.SampledFrom([]int{0, 1, 1, 2}).Draw(t, "shutdownctx"),
 			FinalErr:      rapid.Bool().Draw(t, "finalerr"),
 			FinalDurMS:    rapid.IntRange(0, 20).Draw(t, "finaldur"),
 		}
